@@ -51,7 +51,9 @@ def gen_uid(rng):
     if r < 0.4:
         return rng.choice(UIDCHARS)
     if r < 0.5:
-        return rng.choice(["NONE", "0", "-", "_", "a-b_c", "550E8400-E29B-41D4-A716-446655440000"])
+        # incl. identifiers that spell a header keyword or another field's token (a scanner looking for keywords must not trip)
+        return rng.choice(["NONE", "0", "-", "_", "a-b_c", "550E8400-E29B-41D4-A716-446655440000", "NEWFILEUID", "OLDFILEUID", "xNEWFILEUIDx", "OFXHEADER",
+                           "VERSION", "SECURITY", "DATA", "ENCODING", "CHARSET", "COMPRESSION", "USASCII", "TYPE1", "OFXSGML", "100", "200", "OFX", "xml"])
     return "".join(rng.choice(UIDCHARS) for _ in range(rng.randint(1, 36)))
 
 
